@@ -3,6 +3,6 @@ NEXT Next
 INVARIANT Emit
 CHECK_DEADLOCK FALSE
 CONSTANTS
-  MaxTok = 3
+  MaxTok = 4
   Small = FALSE
-  Members = FALSE
+  Members = TRUE
